@@ -861,4 +861,26 @@ theorem stageBlockRoot_keeps_sibClosed {E : Env H} {cfg : Cfg} (hstrict : Strict
           have := set_keeps_sibClosed hstrict hcl hrange hsr
           cases o <;> (simp only; rw [blockTree_set_same]; exact this)
 
+/-- `_satisfy_block_hash_tree` when the segment's block hash leaf is already held (the segment was fetched from this
+    share before, e.g. by another reader) -/
+theorem stageBlockHashes_held_leaf (E : Env H) (cfg : Cfg) (pick : List Nat → Nat) (shnum segnum : Nat) (v : View H)
+    (nd : Node H) {u : UEB H} {sz : Sizes} (hk : nd.known = some (u, sz))
+    (hc : Closed (nd.blockTree shnum sz.numSegs)) (hsc : SibClosed (nd.blockTree shnum sz.numSegs))
+    (hL : firstLeafNum sz.numSegs + segnum < (nd.blockTree shnum sz.numSegs).length)
+    (hheld : get (nd.blockTree shnum sz.numSegs) (firstLeafNum sz.numSegs + segnum) ≠ none) :
+    stageBlockHashes E cfg pick shnum segnum v nd = (none, nd) := by
+  unfold stageBlockHashes
+  rw [hk]
+  simp only
+  rw [held_leaf_needs_nothing hc hsc hL hheld]
+
+omit [DecidableEq H] in
+/-- in a closed, sibling-closed tree the uncle chain of a held leaf is held -/
+theorem held_leaf_chain_held {t : Tree H} (hc : Closed t) (hsc : SibClosed t) {L : Nat} (hheld : get t L ≠ none) :
+    ∀ i ∈ neededFor L, get t i ≠ none := by
+  intro i hi
+  obtain ⟨c, hanc, hc0, e⟩ := mem_neededFor.mp hi
+  rw [e]
+  exact hsc c hc0 (known_above hc hsc hanc hheld)
+
 end Tahoe.Integrity
